@@ -74,9 +74,10 @@ class Source:
 class StageFn:
     """map / parmap worker function with call log, virtual service times, failure set, concurrency meter."""
 
-    def __init__(self, sim, add, delays=None, fail=None, name='fn'):
+    def __init__(self, sim, add, delays=None, fail=None, name='fn', none=None):
         self.sim = sim
         self.add = add
+        self.none = none or {}  # {'idx': [..]}: the function's (legitimate) result for these inputs is None
         self.delays = delays
         self.fail = fail or {}  # {'idx': [..], 'exc': kind}
         self.calls = []
@@ -97,6 +98,8 @@ class StageFn:
                     time.sleep(d)
             if self.fail and idx_of(x) in self.fail['idx']:
                 _raise(self.fail['exc'], x)
+            if self.none and idx_of(x) in self.none['idx']:
+                return None
             return x + self.add
         finally:
             self.running -= 1
@@ -152,7 +155,7 @@ def reference(sc):
                         failed = err
                         break
                 else:
-                    y = x + PAR_ADD
+                    y = None if (st.get('none') and idx_of(x) in st['none']['idx']) else x + PAR_ADD
                 x = [x_in, y] if st.get('return_x') else y
             elif op == 'buffer':
                 pass
